@@ -163,3 +163,133 @@ CONTROLS = [
     ("non-aligned pair non-empty in between", "C09.R1", _perturb_u64(L + "between::SOLUTIONS", 64 * 0 + 10 + 7, 9)),
     ("queen-side safe files include the b file", "C09.R2", _perturb_const),
 ]
+
+
+# ------------------------------------------------------------------ R3: accessors (K4 terms)
+from analysis import terms as T
+
+
+def _static(name):
+    return ("obj", ("static", L + name))
+
+
+def _idx(*ps):
+    return tuple(("cast", "usize", ("discr", p)) for p in ps)
+
+
+def _bb(w):
+    return ("adt", "chess_bitboard::BitBoard", "BitBoard", (w,))
+
+
+@rule("C09.R3", "accessors return their table entry; pawn helpers and distance compute the stated formula")
+def r3(ctx):
+    P = ctx.P
+    g = R.Geo(P)
+    eng = T.Engine(P, opaque={"chess_bitboard::pos::Pos::rank", "chess_bitboard::pos::Pos::file"})
+    pos, a, b = ("param", 0, "pos"), ("param", 0, "a"), ("param", 1, "b")
+
+    def nest(table, *idx):
+        t = _static(table)
+        for i in idx:
+            t = ("index", t, i)
+        return t
+
+    simple = {
+        "rook_rays": _bb(nest("rook_rays::RAYS", *_idx(pos))),
+        "bishop_rays": _bb(nest("bishop_rays::RAYS", *_idx(pos))),
+        "knight_moves": _bb(nest("knight_moves::MOVES", *_idx(pos))),
+        "king_moves": _bb(nest("king_moves::MOVES", *_idx(pos))),
+        "between": _bb(nest("between::SOLUTIONS", *_idx(a, b))),
+        "line": _bb(nest("line::SOLUTIONS", *_idx(a, b))),
+    }
+    for fn, want in simple.items():
+        key = "chess_lookup::" + fn
+        ctx.used_body(key)
+        rets = {lf.ret for lf in eng.tabulate(key)}
+        ctx.ob(f"accessor {fn}", rets == {want}, f"{fn} returns {[T.show(r)[:200] for r in rets]}; expected {T.show(want)}", site=P.body(key).get("def_span"), sample=T.show(want))
+
+    # pawn helpers, per colour
+    color, occ = ("param", 1, "color"), ("field", ("param", 2, "all_pieces"), "0")
+    W, B = g.color[0], g.color[1]
+    for fn in ("pawn_attacks", "pawn_attacks_moves", "pawn_quiets", "pawn_moves"):
+        key = "chess_lookup::" + fn
+        ctx.used_body(key)
+        leaves = eng.tabulate(key)
+        if fn in ("pawn_attacks", "pawn_attacks_moves"):
+            # no colour match: the table is indexed by the colour parameter itself
+            att = nest("pawn::PAWN_ATTACKS", ("cast", "usize", ("discr", pos)), ("cast", "usize", ("discr", color)))
+            want = _bb(eng.binop("BitAnd", att, occ)) if fn == "pawn_attacks" else _bb(att)
+            rets = {lf.ret for lf in leaves}
+            ctx.ob(fn, rets == {want}, f"{fn} returns {[T.show(r)[:200] for r in rets]}; expected {T.show(want)}", site=P.body(key).get("def_span"), sample=T.show(want))
+            continue
+        for cname, cd, up in (("White", W, True), ("Black", B, False)):
+            att = nest("pawn::PAWN_ATTACKS", ("cast", "usize", ("discr", pos)), T.I(cd, "usize"))
+            qui = nest("pawn::PAWN_QUIETS", ("cast", "usize", ("discr", pos)), T.I(cd, "usize"))
+            bit = eng.binop("Shl", T.I(1, "u64"), ("cast", "u8", ("discr", pos)))
+            not_last = T.I(~g.bb([(f, 7 if up else 0) for f in range(8)]), "u64")
+            nxt = eng.binop("Shl" if up else "Shr", eng.binop("BitAnd", bit, not_last), T.I(8, "i32"))
+            blocked = eng.binop("Ne", eng.binop("BitAnd", nxt, occ), T.I(0, "u64"))
+            attacks = eng.binop("BitAnd", att, occ)
+            quiets = eng.binop("BitAnd", qui, eng.unop("Not", occ))
+            ls = [lf for lf in leaves if lf.known.get(color) == cname]
+            if fn == "pawn_attacks":
+                want = {(None, _bb(attacks))}
+            elif fn == "pawn_attacks_moves":
+                want = {(None, _bb(att))}
+            elif fn == "pawn_quiets":
+                want = {(1, _bb(T.I(0, "u64"))), (0, _bb(quiets))}
+            else:
+                want = {(1, _bb(attacks)), (0, _bb(eng.binop("BitOr", quiets, attacks)))}
+            got = set()
+            for lf in ls:
+                bl = [v for t, v in lf.cond if t == blocked]
+                got.add((bl[0] if bl else None, lf.ret))
+            ctx.ob(f"{fn}[{cname}]", got == want, f"{fn} for {cname}: {[(b_, T.show(r)[:160]) for b_, r in got]}; expected {[(b_, T.show(r)[:160]) for b_, r in want]} "
+                   f"(first component: one-step square {'up' if up else 'down'} occupied)", site=P.body(key).get("def_span"), sample={"cases": len(got)})
+
+    key = "chess_lookup::distance"
+    ctx.used_body(key)
+    rets = {lf.ret for lf in eng.tabulate(key)}
+    rk = lambda p: ("cast", "u8", ("discr", ("app", "chess_bitboard::pos::Pos::rank", (p,))))
+    fl = lambda p: ("cast", "u8", ("discr", ("app", "chess_bitboard::pos::Pos::file", (p,))))
+    srt = lambda *xs: tuple(sorted(xs, key=repr))
+    want = ("max",) + srt(("abs_diff",) + srt(rk(a), rk(b)), ("abs_diff",) + srt(fl(a), fl(b)))
+    from analysis.effects import index_chain, strip_casts
+    ic = index_chain(list(rets)[0]) if len(rets) == 1 else None
+    if ic and len(ic[1]) == 2 and [strip_casts(x) for x in ic[1]] == [("discr", a), ("discr", b)] and ic[0] in P.values:
+        # table-based implementation: check the table itself against the definition
+        raw = P.value_bytes(ic[0])
+        w = len(raw) // 4096 if len(raw) % 4096 == 0 else 0
+        bad = []
+        for x in range(64):
+            for y in range(64):
+                got = int.from_bytes(raw[(64 * x + y) * w:(64 * x + y + 1) * w], "little") if w else None
+                cx, cy = g.coord[x], g.coord[y]
+                d = max(abs(cx[0] - cy[0]), abs(cx[1] - cy[1]))
+                if got != d:
+                    bad.append((f"{g.name(x)},{g.name(y)}", f"{ic[0]}[{g.name(x)}][{g.name(y)}] = {got}, Chebyshev distance is {d}"))
+        ctx.bulk("distance (table form)", 4096, bad, "distance table differs from max(|dr|, |df|)")
+        return
+    ctx.ob("distance", rets == {want}, f"distance returns {[T.show(r)[:200] for r in rets]}; expected max(|rank a - rank b|, |file a - file b|)", site=P.body(key).get("def_span"),
+           sample=T.show(want))
+
+
+def _attacks_wrong_color(P):
+    b = P.own("fns", "chess_lookup::pawn_attacks_moves")
+    for blk in b["blocks"]:
+        t = blk["t"]
+        if t["k"] == "call" and "color::Color>" in t["f"].get("fn", "") and t["a"]:
+            # index by a constant colour instead of the parameter
+            t["a"][1] = {"k": "const", "ty": "chess_bitboard::color::Color", "c": {"int": "0", "bits": "0", "sz": 1}}
+
+
+def _distance_min(P):
+    b = P.own("fns", "chess_lookup::distance")
+    for blk in b["blocks"]:
+        t = blk["t"]
+        if t["k"] == "call" and t["f"].get("fn", "").endswith("::max"):
+            t["f"]["fn"] = t["f"]["fn"][:-3] + "min"
+            t["f"]["fn_args"] = t["f"].get("fn_args", "").replace("::max", "::min")
+
+
+CONTROLS.append(("distance uses min", "C09.R3", _distance_min))
